@@ -8,7 +8,9 @@ SCRATCH = sys.argv[1] if len(sys.argv) > 1 else "/tmp/seeded"
 # seeds written in round 2 under other names: scratch name -> (id, property)
 RENAME = {"R2B1": ("C05c", "C05"), "R2B3": ("C15c", "C15"), "R2A2": ("C04c", "C04"), "R2A3": ("C15d", "C15"),
           "R3A1": ("C09c", "C09"), "R3A2": ("C15e", "C15"), "R3A3": ("C11c", "C11"), "R3B1": ("C17c", "C17"), "R3B2": ("C05d", "C05"),
-          "R3B3": ("C12c", "C12"), "R3C1": ("C13c", "C13"), "R3C2": ("C13d", "C13"), "R3C3": ("C14c", "C14")}
+          "R3B3": ("C12c", "C12"), "R3C1": ("C13c", "C13"), "R3C2": ("C13d", "C13"), "R3C3": ("C14c", "C14"),
+          "R4A1": ("C07c", "C07"), "R4A2": ("C14d", "C14"), "R4A3": ("C04d", "C04"), "R4B1": ("C04e", "C04"), "R4B2": ("C01c", "C01"),
+          "R4B3": ("C15f", "C15"), "R4C1": ("C11d", "C11"), "R4C2": ("C13e", "C13"), "R4C3": ("C07d", "C07")}
 NEEDS = {
  "C01a": "is_callable_above_mark rewritten with position() (bottom-most MARK): needs nested MARKs with a callable right above the lower one and OBJ chosen with a bare MARK on top, then fixed-arity pops; ~1 in 1e5 PRNG pickles",
  "C01b": "STACK_GLOBAL guard relaxed whenever an installed mutator reports is_unsafe(): needs protocol 4/5, safe mode, the typeconfusion mutator registered",
@@ -58,6 +60,15 @@ NEEDS = {
  "R3C1": "batch mode re-orders the opcode bounds (min.min(max), max.max(min)): needs --dir with min > max (or a lone --min-opcodes above 300)",
  "R3C2": "PickleMutator.mutate returns its previous output when data equals the last input (cache ignores max_size and the generator configuration): needs two consecutive mutate calls with the same data and a different max_size or a set_opcode_range in between",
  "R3C3": "Stack::push sweeps the cycle-release registry once it holds >= 256 handles, keeping only strong_count() > 1: needs >= 256 pushes plus a reference cycle that was already popped or is closed later",
+ "R4A1": "GET key list no longer sorted (an optimisation): BINGET with a memo above 256 entries follows HashMap iteration order: needs protocol >= 1 and a memo beyond 256 entries (~3700 opcodes), two processes or generator instances",
+ "R4A2": "new Stack::sweep_cells() (retain strong_count() > 1) called every 4096 body opcodes: forgets popped or later-closed cycles: needs >= 4096 body opcodes plus a reference cycle",
+ "R4A3": "FLOAT text of negative zero written as -0.0 without the trailing newline: needs the exact value -0.0 (fuzzer bytes 00 00 00 00 00 00 00 80 after choosing FLOAT); PRNG, boundary mutator and exhausted input never produce it",
+ "R4B1": "type-confusion replacement start computed as output.len() - output_delta.len(): wrong when two TypeConfusion mutators fire on the same opcode (unsafe mode, registered twice, high rate): truncates into earlier opcodes, the FRAME placeholder or PROTO",
+ "R4B2": "READONLY_BUFFER guard requires a bytes-like operand at position 1 and drops the not-a-MARK check: needs protocol 5, buffer opcodes on and a stack [.., bytes, MARK]",
+ "R4B3": "mutate_memo_index returns early (no mutation, no draw) when the memo has fewer than two entries: needs a memo-index mutator and a GET emitted while exactly one PUT happened",
+ "R4C1": "with_max_opcodes lowers min_opcodes to max (and with_min_opcodes raises max): the result depends on the order of the two single setters: needs the separate setters with max below the current min, max set last",
+ "R4C2": "output files opened without truncate: an existing longer file keeps a stale tail, exit status 0: needs the CLI writing onto an existing longer file (single mode or a re-used --dir)",
+ "R4C3": "a 2-second wall-clock budget breaks the body loop early: needs generation slower than 2 s (25k+ opcodes in release) or a process suspended mid-generation",
  "R2A3": "fuzzer-mode gen_unit_f64 = bits / u64::MAX, exactly 1.0 for bits >= 0xFFFFFFFFFFFFFC00: needs fuzzer-bytes mode, rate 1.0 and eight gate bytes above that threshold",
 }
 for d in sorted(NEEDS):
@@ -72,7 +83,7 @@ for d in sorted(NEEDS):
     for f in ("patch.diff", "patch.orig.diff", "demo.rs", "demo.sh", "notes.md"):
         if os.path.exists(src + "/" + f): shutil.copy(src + "/" + f, dst + "/" + f)
     det = {}
-    for k in ("detect", "detect2", "detect3", "detect4", "final", "final2"):
+    for k in ("detect", "detect2", "detect3", "detect4", "final", "final2", "final3"):
         fp = "%s.%s.json" % (src, k)
         if os.path.exists(fp):
             try:
